@@ -23,7 +23,7 @@ RUNS = {'quick': 16000, 'thorough': 48000}
 RULE = ('runs generated from the seed, one history per run: a SignatureList L with a model M (Python list), up to 30 steps drawn from mutations (L[i]=s, slice assignment, del L[i], '
         'del L[a:b:c], insert, append, extend, pop, reverse, clear, +=; in-range, negative and out-of-range positions) and observation rounds on L, on a SignatureArray built from M and on an '
         'HDF5Signatures file written and re-loaded from M (len, iteration, sizes, every integer index -n-1..n, slices, integer lists/arrays of all integer dtypes incl. array.array, boolean masks, '
-        'ill-typed and out-of-range indices, sub-collection metadata, caller index unchanged, == across the three and != after perturbation). thorough: in the final round all slices (start, stop, step over -n-2..n+2 and None) for n<=4. '
+        'ill-typed and out-of-range indices incl. unsigned 64-bit values within len of 2**64, sub-collection metadata, caller index unchanged, == across the three and != after perturbation). thorough: in the final round all slices (start, stop, step over -n-2..n+2 and None) for n<=4. '
         'A case is (history shape = sequence of operation kinds, observation kind, collection type); non-trivial = history has >=1 mutation before the observation.')
 STATES_MEASURE = 'distinct mutation-kind sequences (history shapes) reached'
 
@@ -170,7 +170,13 @@ def observe(ctx, coll, M, name, ch, L, kspec, dtype, thorough, shape, all_slices
 	# ill-typed / out-of-range
 	bad = [('array with out-of-range entry', np.array([0, n], dtype=np.intp)), ('list with out-of-range negative entry', [-n - 1]),
 	       ('mask of wrong length', np.ones(n + 1, dtype=bool)), ('float scalar', 1.0), ('float array', np.array([0.0])), ('2-D integer array', np.zeros((1, 1), dtype=np.intp)),
-	       ('string', 'a')]
+	       ('string', 'a'),
+	       # unsigned 64-bit values that would wrap to an in-range negative if converted to intp before the bounds test
+	       ('uint64 array holding 2**64-1', np.array([2 ** 64 - 1], dtype=np.uint64)),
+	       ('uint64 array holding 2**64-len', np.array([2 ** 64 - max(n, 1)] * 2, dtype=np.uint64)),
+	       ('list holding 2**64-1', [2 ** 64 - 1]), ('uint64 array holding 2**63', np.array([2 ** 63], dtype=np.uint64)),
+	       ('uint64 scalar 2**64-1', np.uint64(2 ** 64 - 1)), ('uint64 scalar 2**64-len', np.uint64(2 ** 64 - max(n, 1))),
+	       ('array.array[Q] holding 2**64-1', array.array('Q', [2 ** 64 - 1])), ('int 2**64-1', 2 ** 64 - 1)]
 	for what, b in bad:
 		try:
 			coll[b]
